@@ -67,7 +67,11 @@ def load_baseline(prop):
 
 
 def sanitize(name):
-    return re.sub(r"[^A-Za-z0-9_.-]+", "_", name)[:150]
+    s = re.sub(r"[^A-Za-z0-9_.-]+", "_", name)
+    if len(s) <= 150:
+        return s
+    import hashlib
+    return s[:140] + "_" + hashlib.sha1(name.encode()).hexdigest()[:8]
 
 
 def main(argv=None):
